@@ -28,7 +28,9 @@ ASSUMPTIONS = [
     "a transform keeps at least one row (an empty input is rejected by design)",
 ]
 
-FORMS = ["path", "gzip", "string", "list", "generator", "dataiterator", "featuredb", "list_iterator", "map_object", "custom_iterator"]
+FORMS = ["path", "gzip", "string", "list", "generator", "dataiterator", "featuredb", "list_iterator", "map_object", "custom_iterator",
+         "deque", "dict_values"]
+OBJECT_FORMS = ("list", "generator", "list_iterator", "map_object", "custom_iterator", "deque", "dict_values")
 
 
 class _OneShot(object):
@@ -176,6 +178,12 @@ class FormsLeg(object):
                 return map(feature_from_line, lines), {}
             if form == "custom_iterator":
                 return _OneShot(feature_from_line(l) for l in lines), {}
+            if form == "deque":
+                import collections
+
+                return collections.deque(feature_from_line(l) for l in lines), {}  # re-iterable, neither list nor tuple
+            if form == "dict_values":
+                return dict((i, feature_from_line(l)) for i, l in enumerate(lines)).values(), {}
             if form == "dataiterator":
                 return DataIterator(path, checklines=cl), {}
             if form == "featuredb":
@@ -259,6 +267,10 @@ class FormsLeg(object):
             if form in ("path", "gzip", "string"):
                 if snap["directives"] != [x[2:] for x in case["directives"]]:
                     return Failure("create_db(form %s): directives %r" % (form, snap["directives"]), sig={"kind": "directives"})
+            if form in OBJECT_FORMS and snap["directives"]:
+                # Feature objects carry no directives: none of an unrelated file read earlier may turn up
+                return Failure("create_db(form %s): directives %r although the input was Feature objects" % (form, snap["directives"]),
+                               sig={"kind": "directives", "form": form})
             snap["directives"] = []
             if len(snap["features"]) != len(kept):
                 return Failure("create_db(form %s): %d rows, expected %d" % (form, len(snap["features"]), len(kept)),
